@@ -180,18 +180,77 @@ def make_ctx(sch, vals, matchers):
 
 # ---------------------------------------------------------------- literal rendering (canonical forms; C06 covers the others)
 
-def render_bytes(b):
+def is_utf8(b):
+    try:
+        b.decode("utf-8")
+        return True
+    except UnicodeDecodeError:
+        return False
+
+
+def render_quoted(b, rng=None):
+    """quoted form; with an rng the escape style varies per byte (\\xHH, \\OOO, literal)"""
     out = '"'
-    for c in b:
+    text_ok = is_utf8(b)
+    i = 0
+    while i < len(b):
+        c = b[i]
+        style = rng.random() if rng is not None else 0.0
         if c == 0x22:
-            out += '\\"'
+            out += '\\"' if style < 0.8 else "\\x22"
         elif c == 0x5C:
-            out += "\\\\"
+            out += "\\\\" if style < 0.8 else "\\134"
         elif 0x20 <= c < 0x7F:
-            out += chr(c)
+            out += chr(c) if style < 0.85 else ("\\x%02x" % c if style < 0.93 else "\\%03o" % c)
+        elif c >= 0xC2 and text_ok and rng is not None and style < 0.5:
+            # a whole multi-byte character written literally
+            n = 2 if c < 0xE0 else 3 if c < 0xF0 else 4
+            out += b[i:i + n].decode("utf-8")
+            i += n
+            continue
         else:
-            out += "\\x%02x" % c
+            out += "\\x%02X" % c if style < 0.5 else ("\\x%02x" % c if style < 0.8 else "\\%03o" % c)
+        i += 1
     return out + '"'
+
+
+def raw_ok(b, n):
+    """can b be written as a raw string with n hashes?"""
+    if not is_utf8(b):
+        return False
+    needle = b'"' + b"#" * n
+    return needle not in b
+
+
+def render_bytes(b, fmt=None, rng=None):
+    if fmt is None:
+        return render_quoted(b, rng)
+    if fmt == "byte":
+        seps = [":", "-", "."]
+        out = "%02x" % b[0] if rng is None or rng.random() < 0.5 else "%02X" % b[0]
+        for c in b[1:]:
+            out += (seps[0] if rng is None else rng.choice(seps)) + ("%02x" % c if rng is None or rng.random() < 0.5 else "%02X" % c)
+        return out
+    n = fmt[1]
+    return "r" + "#" * n + '"' + b.decode("utf-8") + '"' + "#" * n
+
+
+def choose_fmt(rng, b, allow_byte=True):
+    """a format in which b can be written: None (quoted), "byte", ("raw", n)"""
+    r = rng.random()
+    if r < 0.5:
+        return None
+    if r < 0.7 and allow_byte and len(b) >= 2:
+        return "byte"
+    n = rng.choice([0, 0, 1, 2, 3])
+    if raw_ok(b, n):
+        return ("raw", n)
+    return None
+
+
+def lit_bytes(rng, b, allow_byte=True):
+    f = choose_fmt(rng, b, allow_byte)
+    return ("s", b) if f is None else ("s", b, f)
 
 
 def render_ip(tag, n):
@@ -200,12 +259,12 @@ def render_ip(tag, n):
     return str(ipaddress.IPv6Address(n))
 
 
-def render_rhs(r):
-    tag, v = r
+def render_rhs(r, rng=None):
+    tag, v = r[0], r[1]
     if tag == "i":
         return str(v)
     if tag == "s":
-        return render_bytes(v)
+        return render_bytes(v, r[2] if len(r) > 2 else None, rng)
     return render_ip(tag, v)
 
 
@@ -262,7 +321,7 @@ def render_arg(sch, a, lay):
     if a[0] == "ai":
         return render_iexpr(sch, a[1], lay)
     if a[0] == "lit":
-        return render_rhs(a[1])
+        return render_rhs(a[1], lay.rng)
     return render_lexpr(sch, a[1], lay)
 
 
@@ -280,19 +339,20 @@ def render_cmp(sch, lhs, op, lay):
         # symbolic operators need no separation; word operators do
         pre = lay.sp() if is_word(o) else lay.osp()
         post = lay.sp() if is_word(o) else lay.osp()
-        return l + pre + o + post + render_rhs(op[2])
+        return l + pre + o + post + render_rhs(op[2], lay.rng)
     if kind == "band":
         o = lay.alias("band")
         pre = lay.sp() if is_word(o) else lay.osp()
         post = lay.sp() if is_word(o) else lay.osp()
         return l + pre + o + post + str(op[1])
     if kind == "contains":
-        return l + lay.sp() + "contains" + lay.sp() + render_bytes(op[1])
+        return l + lay.sp() + "contains" + lay.sp() + render_bytes(op[1], op[2] if len(op) > 2 else None, lay.rng)
     if kind == "in-int":
         items = [(str(a) if a == b else "%d..%d" % (a, b)) for a, b in op[1]]
         return l + lay.sp() + "in" + lay.sp() + "{" + lay.osp() + lay.sp().join(items) + lay.osp() + "}"
     if kind == "in-bytes":
-        items = [render_bytes(b) for b in op[1]]
+        items = [render_bytes(b, None, lay.rng) if isinstance(b, bytes) else render_bytes(b[0], b[1], lay.rng)
+                 for b in op[1]]
         return l + lay.sp() + "in" + lay.sp() + "{" + lay.osp() + lay.sp().join(items) + lay.osp() + "}"
     if kind == "in-ip":
         items = []
@@ -534,15 +594,19 @@ class Gen:
             return ("ord", rng.choice(ords), gen_prim(rng, "int"))
         if t == "bytes":
             if r < 0.55:
-                return ("ord", rng.choice(ords), gen_prim(rng, "bytes"))
+                return ("ord", rng.choice(ords), lit_bytes(rng, gen_prim(rng, "bytes")[1]))
             if r < 0.75:
-                return ("contains", rng.choice([b"", b"a", b"ab", b"abc", b"bc", b"\xff", b"ca", b"abcabd", b"x" * 17,
-                                                b"lo wo"]))
+                b = rng.choice([b"", b"a", b"ab", b"abc", b"bc", b"\xff", b"ca", b"abcabd", b"x" * 17, b"lo wo"])
+                return ("contains",) + lit_bytes(rng, b)[1:]
             if "oneof" in self.f and r < 0.9:
-                return ("in-bytes", tuple(gen_prim(rng, "bytes")[1] for _ in range(rng.randrange(0, 5))))
+                items = []
+                for _ in range(rng.randrange(0, 5)):
+                    l = lit_bytes(rng, gen_prim(rng, "bytes")[1])
+                    items.append(l[1] if len(l) == 2 else (l[1], l[2]))
+                return ("in-bytes", tuple(items))
             if "inlist" in self.f and self.sch.list_index("bytes") is not None:
                 return ("inlist", self.sch.list_index("bytes"), rng.choice([b"l1", b"l2.x", b"empty_1", b"nope"]))
-            return ("ord", rng.choice(ords), gen_prim(rng, "bytes"))
+            return ("ord", rng.choice(ords), lit_bytes(rng, gen_prim(rng, "bytes")[1]))
         if t == "ip":
             if r < 0.7:
                 return ("ord", rng.choice(ords), gen_prim(rng, "ip"))
